@@ -96,6 +96,15 @@ def _raw_cast(x, y, n_bits):
         return lambda m: np.asarray(m).astype(object)   # (np.array(np.int64(..), dtype=object) would keep the NumPy scalar)
     return lambda m: m
 
+def _signed_value(val):
+    """
+    The value(s) of an unsigned integer object (an uint64 array or scalar below 2**63) in a signed type,
+    so that a negative result of the value ('repr') method does not wrap around.
+    """
+    if isinstance(val, (np.ndarray, np.generic)) and val.dtype == np.uint64 and (val.size == 0 or np.max(val) < 2**63):
+        return val.astype(np.int64)
+    return val
+
 def _rescale(val, shift, n_frac, exact=False):
     """
     Returns `val` * 2**shift for the raw functions. A negative shift gives a fractional value that set_val() rounds: the product
@@ -198,7 +207,7 @@ def _function_over_two_vars(repr_func, raw_func, x, y, out=None, out_like=None, 
 
     if method == 'repr' or x.scaled or n_frac is None:
         raw = False
-        val = repr_func(x.get_val(), y.get_val(), **kwargs)
+        val = repr_func(_signed_value(x.get_val()), _signed_value(y.get_val()), **kwargs)
     elif method == 'raw':
         raw = True
         kwargs['n_frac'] = n_frac
